@@ -733,7 +733,8 @@ def addrValid (a : String) : Bool :=
 
 /-- `Node.validate`. -/
 def nodeValid (n : CNode) : Bool :=
-  n.id ≠ 0 && addrValid n.addr && !(n.action = actPromote ∧ n.voter) && !(n.action = actDemote ∧ !n.voter)
+  n.id ≠ 0 && addrValid n.addr && decide (n.action ≤ actForceRemove) &&
+    !(n.action = actPromote ∧ n.voter) && !(n.action = actDemote ∧ !n.voter)
 
 /-- `Config.validate`. -/
 def configValid (c : Config) : Bool :=
